@@ -26,7 +26,7 @@ from .. import spec as S
 PID = "C14"
 LEVEL = "exploration"
 RULE = ("histories = sequence of 0..4 prior operations {construct, encode, encode twice} on documents of a "
-        "16-document pool (plain 3/5 columns, coloured x2, paginated, page_by, subline_by, grouped, raising "
+        "19-document pool (plain 3/5 columns, coloured x2, paginated, page_by, subline_by, grouped, raising "
         "ValueError, multi-section x2, figure, explicit/inherited headers), optionally sharing every "
         "equal-valued component object (page, body, header, title, footnote, source) with an earlier document, "
         "followed by constructing and encoding a target; all histories of length <=1 (quick) / <=2 (thorough) "
@@ -36,7 +36,7 @@ ASSUMPTIONS = ["a fresh `python -c` interpreter importing rtflite from the worki
 DECIDING = ["histories_run", "targets_compared", "encodes_observed", "df_snapshots_compared",
             "fresh_interpreter_baselines", "shared_component_histories", "after_failed_encode_histories"]
 FLOOR = {"quick": 1500, "thorough": 20000}
-EXHAUSTIVE_NOTE = {"quick": "all histories of length <=1 (16 docs x 3 ops x 16 targets x sharing on/off)",
+EXHAUSTIVE_NOTE = {"quick": "all histories of length <=1 (19 docs x 3 ops x 19 targets x sharing on/off)",
                    "thorough": "all histories of length <=2 with sharing off, length <=1 with sharing on"}
 OPS = ["new", "enc", "enc2"]
 COMPONENTS = ["page", "body", "colheader", "title", "subline", "footnote", "source", "page_header", "page_footer"]
@@ -56,6 +56,12 @@ def pool():
     TT = {"text": "TT0"}
     P["plain3"] = {"kind": "table", "df": tagged(4, 3), "body": {}, "colheader": [{}], "title": TT, "footnote": FN}
     P["plain5"] = {"kind": "table", "df": tagged(4, 5), "body": {}, "colheader": [{}], "title": TT, "footnote": FN}
+    # components whose defaults are EXPANDED by the constructor: a single-element width list is
+    # broadcast to the frame's column count, a header without widths inherits the body's
+    P["w1_3"] = {"kind": "table", "df": tagged(3, 3), "body": {"col_rel_width": [1]}, "colheader": [{}], "title": TT}
+    P["w1_5"] = {"kind": "table", "df": tagged(3, 5), "body": {"col_rel_width": [1]}, "colheader": [{}], "title": TT}
+    P["w2_2"] = {"kind": "table", "df": tagged(2, 2), "body": {"col_rel_width": [2.5]}, "colheader": "none",
+                 "title": TT}
     P["hdr3"] = {"kind": "table", "df": tagged(3, 3), "body": {}, "colheader": [{"text": ["H0c0", "H0c1", "H0c2"]}],
                  "title": TT}
     P["hdr3w"] = {"kind": "table", "df": tagged(3, 3), "body": {"col_rel_width": [1, 2, 3]},
